@@ -246,6 +246,161 @@ Check C05_emitted_body_closed : forall nanfix params body sv,
   free_vars (subst true (scope_map nanfix true sv) body) (map arg_name params) = [].
 Print Assumptions C05_emitted_body_closed.
 
+(* ------------------------------------------------------------------------------------------ *)
+(* HIGHER-ORDER captured values (closures capturing closures to any depth, bodies that create
+   closures, functions as results).  proofs/EmitHO*.v. *)
+Require Import Blots.EvalFull Blots.proofs.EmitHO Blots.proofs.EmitHOSim Blots.proofs.EmitHOOps
+               Blots.proofs.EmitHOTop.
+
+(* P2, the simulation.  [vrel v v'] = "v' is v after emit + reload": data equal; a closure
+   VLam _ ps b sc related to VLam _ ps (subst m b) sc' where m inlines some captured names as the
+   literals of their (emittable) values and the other captured names are captured on the right with
+   related values.  For EVERY implementation of operators / built-ins that takes related callbacks
+   and operands to related outcomes (impl_rel_respecting), related functions applied to related
+   arguments — at every depth d, from any two scope chains, any two stores, any self values — give
+   related outcomes: Ok with related values, or the same error class (in particular the depth
+   error on both sides or on neither: both runs are at the same depth and the inlined literals call
+   nothing, so F23 does not enter). *)
+Theorem C05_ho_simulation :
+  forall opok biok nanfix release binop_impl builtin_impl,
+    impl_rel_respecting opok biok nanfix binop_impl builtin_impl ->
+    forall d fr fr' this this' f f' args args' st st',
+      vrel opok biok nanfix f f' -> lrel opok biok nanfix args args' ->
+      orel opok biok nanfix (fst (AD release binop_impl builtin_impl d fr this f args st))
+                            (fst (AD release binop_impl builtin_impl d fr' this' f' args' st')).
+Proof. exact ho_simulation. Qed.
+Check C05_ho_simulation :
+  forall opok biok nanfix release binop_impl builtin_impl,
+    impl_rel_respecting opok biok nanfix binop_impl builtin_impl ->
+    forall d fr fr' this this' f f' args args' st st',
+      vrel opok biok nanfix f f' -> lrel opok biok nanfix args args' ->
+      orel opok biok nanfix (fst (AD release binop_impl builtin_impl d fr this f args st))
+                            (fst (AD release binop_impl builtin_impl d fr' this' f' args' st')).
+Print Assumptions C05_ho_simulation.
+
+(* The transcribed operators (all but == != .== .!=, finding F53) and the built-ins of biok_inst
+   (map filter reduce every some, abs floor ceil trunc sqrt, typeof arity to_bool, ugt ult ugte ulte,
+   any all) satisfy that hypothesis, also through the dispatcher with every transcribed built-in. *)
+Theorem C05_impl_rel_respecting_inst : forall nanfix,
+  impl_rel_respecting eqfree biok_inst nanfix binop_impl EvalFull.builtin_full.
+Proof. exact impl_rel_full. Qed.
+Check C05_impl_rel_respecting_inst : forall nanfix,
+  impl_rel_respecting eqfree biok_inst nanfix binop_impl EvalFull.builtin_full.
+Print Assumptions C05_impl_rel_respecting_inst.
+
+(* C05_full, proved, with its exclusions.  For a function value that is [emit_ok] — closed after
+   capture at every level of nesting; bodies: no == != .== .!= (F53), only built-ins of biok_inst,
+   no `inputs` / #ref (F9 of C04), no assignment outside do-block statements (F32 of C04), no
+   `output`; captured data without NaN and both-quote strings (their literals are operator
+   expressions), records with unique keys; captured names are not parameters / inf infinity
+   constants — and arguments that are emittable values themselves (functions included): the
+   original and the reloaded emission return related outcomes from any two call sites, stores and
+   depths; first-order results are EQUAL, the depth error occurs on both sides or on neither.
+   No premise about function names (F8 is repaired) and none about the store. *)
+Theorem C05_emit_equiv_higher_order :
+  forall release nanfix d fr fr' this this' id id' ps b sc args st st' r,
+    emit_ok eqfree biok_inst (VLam id ps b sc) = true ->
+    forallb (emit_ok eqfree biok_inst) args = true ->
+    fst (AD release binop_impl EvalFull.builtin_full d fr this (VLam id ps b sc) args st) = r ->
+    exists r', fst (AD release binop_impl EvalFull.builtin_full d fr' this'
+                       (VLam id' ps (subst true (scope_map nanfix true sc) b) []) args st') = r' /\
+      orel eqfree biok_inst nanfix r r' /\
+      (forall v, r = Ok v -> lf v = true -> r' = Ok v) /\ (r = ErrDepth <-> r' = ErrDepth).
+Proof. exact emit_equiv_ho_same_args. Qed.
+Check C05_emit_equiv_higher_order :
+  forall release nanfix d fr fr' this this' id id' ps b sc args st st' r,
+    emit_ok eqfree biok_inst (VLam id ps b sc) = true ->
+    forallb (emit_ok eqfree biok_inst) args = true ->
+    fst (AD release binop_impl EvalFull.builtin_full d fr this (VLam id ps b sc) args st) = r ->
+    exists r', fst (AD release binop_impl EvalFull.builtin_full d fr' this'
+                       (VLam id' ps (subst true (scope_map nanfix true sc) b) []) args st') = r' /\
+      orel eqfree biok_inst nanfix r r' /\
+      (forall v, r = Ok v -> lf v = true -> r' = Ok v) /\ (r = ErrDepth <-> r' = ErrDepth).
+Print Assumptions C05_emit_equiv_higher_order.
+
+(* a closure capturing a closure capturing a closure satisfies the premise *)
+Example C05_emit_ok_depth3_example :
+  emit_ok eqfree biok_inst
+    (VLam 0%nat [AReq "x"%string] (ECall (EId "g"%string) [EId "x"%string])
+       [("g"%string, VLam 1%nat [AReq "y"%string] (ECall (EId "h"%string) [EBin Add (EId "y"%string) (EId "a"%string)])
+          [("h"%string, VLam 2%nat [AReq "z"%string] (EBin Multiply (EId "z"%string) (EId "k"%string))
+                          [("k"%string, VNum (nb 0x4008000000000000))]);
+           ("a"%string, VNum (nb 0x3ff0000000000000))])]) = true.
+Proof. vm_compute. reflexivity. Qed.
+
+(* re-emission: emit (reload (emit f)) is the same AST, and every generation is related to the
+   ORIGINAL — so (by the simulation) chains of any length behave like f *)
+Theorem C05_reemit_related : forall nanfix id id1 id2 ps b sc e1 f1 e2 f2,
+  emit_ok eqfree biok_inst (VLam id ps b sc) = true ->
+  emit_ast nanfix true (VLam id ps b sc) = Some e1 -> reload_ast id1 e1 = Some f1 ->
+  emit_ast nanfix true f1 = Some e2 -> reload_ast id2 e2 = Some f2 ->
+  e2 = e1 /\ vrel eqfree biok_inst nanfix (VLam id ps b sc) f1 /\
+  vrel eqfree biok_inst nanfix (VLam id ps b sc) f2.
+Proof. exact reemit_related. Qed.
+Check C05_reemit_related : forall nanfix id id1 id2 ps b sc e1 f1 e2 f2,
+  emit_ok eqfree biok_inst (VLam id ps b sc) = true ->
+  emit_ast nanfix true (VLam id ps b sc) = Some e1 -> reload_ast id1 e1 = Some f1 ->
+  emit_ast nanfix true f1 = Some e2 -> reload_ast id2 e2 = Some f2 ->
+  e2 = e1 /\ vrel eqfree biok_inst nanfix (VLam id ps b sc) f1 /\
+  vrel eqfree biok_inst nanfix (VLam id ps b sc) f2.
+Print Assumptions C05_reemit_related.
+
+(* related data is equal data: what the relation says about a first-order result *)
+Theorem C05_related_data_equal : forall nanfix v v',
+  vrel eqfree biok_inst nanfix v v' -> lf v = true -> v = v'.
+Proof. intros nanfix. exact (vrel_lf_eq eqfree biok_inst nanfix). Qed.
+Check C05_related_data_equal : forall nanfix v v',
+  vrel eqfree biok_inst nanfix v v' -> lf v = true -> v = v'.
+Print Assumptions C05_related_data_equal.
+
+(* the free names of an inlined expression are EXACTLY the un-inlined free names of the original
+   (converse of C05_inlined_free_vars): a closure created by a reloaded body captures exactly what
+   the original captured and the emission did not inline *)
+Theorem C05_inlined_free_vars_conv : forall e m bound x,
+  lits_closed m -> In x (free_vars e bound) -> rec_get m x = None ->
+  In x (free_vars (subst true m e) bound).
+Proof. exact EmitHOFv.subst_fv_conv. Qed.
+Check C05_inlined_free_vars_conv : forall e m bound x,
+  lits_closed m -> In x (free_vars e bound) -> rec_get m x = None ->
+  In x (free_vars (subst true m e) bound).
+Print Assumptions C05_inlined_free_vars_conv.
+
+(* F53 (current code): Value::equals on two functions compares parameter lists and body ASTs and
+   ignores captured values.  mk = a => (y => y + a); k1 = mk(1); k2 = mk(2); f = x => k1 == k2:
+   f(0) = true, the reloaded emission (x) => ((y) => y + 1) == ((y) => y + 2) gives false. *)
+Lemma C05_function_equality_refuted :
+  closed_after_capture f52_fun = true /\
+  call_on f52_fun (VNum nzero) = Ok (VBool true) /\
+  call_on (reloaded true true f52_fun) (VNum nzero) = Ok (VBool false).
+Proof. exact f52_refuted. Qed.
+
+(* ... hence the statement C05_full above, which has no exclusion for function equality, is FALSE *)
+Lemma C05_full_refuted : ~ C05_full.
+Proof.
+  intros H.
+  destruct (H true LIMIT [(FOwned, [])] [(FOwned, [])] 0%nat 1%nat [AReq "x"%string]
+              (EBin Equal (EId "k1"%string) (EId "k2"%string))
+              [("k1"%string, f52_k 1%Z); ("k2"%string, f52_k 2%Z)] [VNum nzero] [None; None]
+              ltac:(vm_compute; reflexivity) ltac:(vm_compute; reflexivity) (or_introl eq_refl)
+              ltac:(vm_compute; reflexivity)) as (e & f' & E & R & HH).
+  cbn in E. inversion E; subst e. cbn in R. inversion R; subst f'. clear E R.
+  match type of HH with forall r st', ?X = _ -> _ =>
+    destruct (HH (fst X) (snd X) (surjective_pairing X)) as (r' & st'' & E2 & Hfo & _);
+    assert (Hr : fst X = Ok (VBool true)) by (vm_compute; reflexivity) end.
+  specialize (Hfo _ Hr eq_refl). subst r'.
+  apply (f_equal fst) in E2. cbn [fst] in E2. vm_compute in E2. discriminate.
+Qed.
+
+(* kept, not proved: the relation-respecting property for the remaining arms of builtin_full
+   (aggregates, list / string / record built-ins, sort_by group_by count_by; `unique` and `includes`
+   apply Value::equals and belong to F53), and NaN / both-quote captured data (their literals are
+   0/0 and a `+` chain: needs the instantiated `/` and `+` inside lit_rel) *)
+Definition C05_all_builtins_rel_full : Prop :=
+  forall nanfix,
+    impl_rel_respecting eqfree
+      (fun b => match b with B_unique | B_includes => false | _ => true end)
+      nanfix binop_impl EvalFull.builtin_full.
+
 (* ---- ... and for the COMPLETE operator table and built-in set (EvalAll.v: every built-in of the
    regenerated table, `^` through the oracle's powf; libm, Unicode tables, clock and lambda text are
    fields of the oracle record o), for every oracle: AllLf.v, from FullClosed.v / FullAgree.v generalised
